@@ -99,6 +99,13 @@ extern const Elem *F_END;
 #endif
 /* ---- meters --------------------------------------------------------------------------------- */
 extern unsigned long alloc_calls, dealloc_calls, gen_calls;
+/* comparison algorithms (C16): the call's arguments and its (uninterpreted, element-consistent) result are recorded */
+extern const Elem *CMP_F1, *CMP_L1, *CMP_F2, *CMP_L2; extern int CMP_KIND; extern _Bool CMP_RESULT; extern unsigned long cmp_calls;
+enum { CMP_NONE = 0, CMP_EQUAL, CMP_LEXLESS, CMP_REMOVE };
+extern Elem *REM_RESULT;
+#ifndef COMPARE_MAY_THROW
+#define COMPARE_MAY_THROW 1
+#endif
 extern int GEN_BASE;                  /* the generator's k-th call yields the abstract value GEN_BASE + k */
 extern unsigned int  used_kinds;
 #define K_DEFAULT 1u
